@@ -72,6 +72,11 @@ def oracle_parser(ctx, cfg, data, segs, o, default_limits):
     if o["err"] and o["err"].startswith("E_OTHER"):
         ctx.violation(f"C10/escaped-exception/{o['err']}", case, f"non-HTTP exception left feed_data: {o['err']}")
         return
+    if o.get("hdr_view"):
+        i, got_, want_ = o["hdr_view"]
+        ctx.violation("C01/message-differs/headers-view-is-not-the-message-s-own-fields", case,
+                      f"message #{i}: at the end of the run message.headers shows {got_!r} but its field lines are {want_!r}")
+        return
     ref, status, pos = rfc9112.read_requests(data)
     got = impl_messages(o)
     # (1) everything the implementation delivered must be the strict reading
